@@ -42,9 +42,15 @@ Definition rx_tail_text (s : rx_stmt) (y : rx_layout) (Ek : pstr) : pstr :=
   members_text 43%N (rx_reactants s) (rx_b2 y ++ 45%N :: 62%N :: rx_b3 y ++ rx_p0 s :: rx_ps0 s ++
   members_text 43%N (rx_products s) Ek).
 
-Lemma seqs_rx_tail full g1 o1 g2 sa la g3 m sl le s y E k :
-  nth_error G g1 = Some (mkNode KGroup [o1] true WS [pil_c] true []) ->
-  nth_error G o1 = Some (mkNode KOpt [121] true WS [pil_c] true []) ->
+(* reactants -> products, end of statement; from any position whose pre-parsed form starts at the first reactant *)
+Definition rx_species_text (s : rx_stmt) (y : rx_layout) (Ek : pstr) : pstr :=
+  rx_r0 s :: rx_rs0 s ++
+  members_text 43%N (rx_reactants s) (rx_b2 y ++ 45%N :: 62%N :: rx_b3 y ++ rx_p0 s :: rx_ps0 s ++
+  members_text 43%N (rx_products s) Ek).
+Lemma seqs_eq full ks p acc r r' : seqs G full ks p acc r' -> r' = r -> seqs G full ks p acc r.
+Proof. intros H <-. exact H. Qed.
+
+Lemma seqs_rx_species full g2 sa la g3 m sl le s y E k X acc :
   nth_error G g2 = Some (mkNode KGroup [177] true WS [pil_c] true []) ->
   nth_error G sa = Some (mkNode KSuppress [la] true WS [pil_c] true []) ->
   nth_error G la = Some (mkNode (KLit ARROW) [] true WS [pil_c] true []) ->
@@ -53,35 +59,20 @@ Lemma seqs_rx_tail full g1 o1 g2 sa la g3 m sl le s y E k :
   nth_error G sl = Some (mkNode KSuppress [le] true WS [pil_c] true []) ->
   (exists cpl, nth_error G le = Some (mkNode KLineEnd [] true WS [pil_c] cpl [])) ->
   rx_stmt_ok s -> rx_layout_ok y -> stmt_end E k ->
-  seqs G full [g1; g2; sa; g3; m] (At (rx_tail_text s y (E ++ k))) []
-    (POk (after WS k) [TList []; TList (names_toks (rx_r0 s) (rx_rs0 s) (rx_reactants s));
-                       TList (names_toks (rx_p0 s) (rx_ps0 s) (rx_products s))]).
+  spre X = rx_species_text s y (E ++ k) ->
+  seqs G full [g2; sa; g3; m] (At X) acc
+    (POk (after WS k) (acc ++ [TList (names_toks (rx_r0 s) (rx_rs0 s) (rx_reactants s));
+                               TList (names_toks (rx_p0 s) (rx_ps0 s) (rx_products s))])).
 Proof.
-  intros Hg1 Ho1 Hg2 Hsa Hla Hg3 Hm Hsl Hle (Hr0 & Hrs & Hrm & Hp0 & Hps & Hpm) (Hb1 & Hb2 & Hb2ne & Hb3) Hk.
-  unfold rx_tail_text.
-  set (P := rx_b3 y ++ rx_p0 s :: rx_ps0 s ++ members_text 43%N (rx_products s) (E ++ k)).
-  set (R := rx_b2 y ++ 45%N :: 62%N :: P).
-  assert (Hx : spre (rx_b1 y ++ rx_r0 s :: rx_rs0 s ++ members_text 43%N (rx_reactants s) R)
-               = rx_r0 s :: rx_rs0 s ++ members_text 43%N (rx_reactants s) R)
-    by (apply spre_blanks_stop; [exact Hb1|apply idch_stop; exact Hr0]).
-  (* Group [Opt [infobox]] : absent *)
-  eapply seqs_cons.
-  { eapply evals_eq.
-    - eapply evals_node_ok; [exact Hg1|apply (pre_premise G full pil_c WS pil_comment_ok); repeat split|].
-      unfold pre_pos. cbn [andb ncallpre]. rewrite Hx.
-      eapply impls_wrap; [reflexivity|reflexivity|].
-      eapply evals_node_ok; [exact Ho1|cbn; reflexivity|].
-      eapply impls_opt_none; [reflexivity|reflexivity|].
-      eapply evals_node_fail; [lk|cbn; reflexivity|].
-      eapply impls_and_fail; [reflexivity|reflexivity|].
-      eapply evals_eq; [apply (evals_slit G full pil_c WS pil_comment_ok 122 123 false true true); lk|].
-      cbn [andb]. unfold lit_res. cbn [starts_with].
-      destruct (N.eqb_spec 91 (rx_r0 s)) as [e|]; [rewrite <- e in Hr0; discriminate|reflexivity].
-    - reflexivity. }
+  intros Hg2 Hsa Hla Hg3 Hm Hsl Hle (Hr0 & Hrs & Hrm & Hp0 & Hps & Hpm) (Hb1 & Hb2 & Hb2ne & Hb3) Hk HX.
+  unfold rx_species_text in HX.
+  set (P := rx_b3 y ++ rx_p0 s :: rx_ps0 s ++ members_text 43%N (rx_products s) (E ++ k)) in *.
+  set (R := rx_b2 y ++ 45%N :: 62%N :: P) in *.
+  eapply seqs_eq.
   eapply seqs_cons.
   { eapply evals_eq.
     - eapply evals_node_ok; [exact Hg2|apply (pre_premise G full pil_c WS pil_comment_ok); repeat split|].
-      unfold pre_pos. cbn [andb ncallpre]. rewrite spre_stop by (apply idch_stop; exact Hr0).
+      unfold pre_pos. cbn [andb ncallpre]. rewrite HX.
       eapply impls_wrap; [reflexivity|reflexivity|].
       apply (ev_delimited 177 178 179 180 181 182 43%N ltac:(lk) ltac:(lk) ltac:(lk) ltac:(lk) ltac:(lk) ltac:(lk)
                eq_refl eq_refl full false _ (rx_r0 s) (rx_rs0 s) (rx_reactants s) R eq_refl Hr0 Hrs Hrm).
@@ -110,6 +101,45 @@ Proof.
   destruct (rx_products s) as [|pm pms]; cbn [zpos].
   - apply (ev_end_spre full m sl le); assumption.
   - apply (ev_end full m sl le true); assumption.
+  - cbn. rewrite ?app_nil_r, <- ?app_assoc. reflexivity.
+Qed.
+
+Lemma seqs_rx_tail full g1 o1 g2 sa la g3 m sl le s y E k :
+  nth_error G g1 = Some (mkNode KGroup [o1] true WS [pil_c] true []) ->
+  nth_error G o1 = Some (mkNode KOpt [121] true WS [pil_c] true []) ->
+  nth_error G g2 = Some (mkNode KGroup [177] true WS [pil_c] true []) ->
+  nth_error G sa = Some (mkNode KSuppress [la] true WS [pil_c] true []) ->
+  nth_error G la = Some (mkNode (KLit ARROW) [] true WS [pil_c] true []) ->
+  nth_error G g3 = Some (mkNode KGroup [177] true WS [pil_c] true []) ->
+  nth_error G m = Some (mkNode (KMany true) [sl] true WS [pil_c] true []) ->
+  nth_error G sl = Some (mkNode KSuppress [le] true WS [pil_c] true []) ->
+  (exists cpl, nth_error G le = Some (mkNode KLineEnd [] true WS [pil_c] cpl [])) ->
+  rx_stmt_ok s -> rx_layout_ok y -> stmt_end E k ->
+  seqs G full [g1; g2; sa; g3; m] (At (rx_tail_text s y (E ++ k))) []
+    (POk (after WS k) [TList []; TList (names_toks (rx_r0 s) (rx_rs0 s) (rx_reactants s));
+                       TList (names_toks (rx_p0 s) (rx_ps0 s) (rx_products s))]).
+Proof.
+  intros Hg1 Ho1 Hg2 Hsa Hla Hg3 Hm Hsl Hle Hs Hy Hk.
+  pose proof Hs as (Hr0 & _). pose proof Hy as (Hb1 & _).
+  unfold rx_tail_text. fold (rx_species_text s y (E ++ k)).
+  assert (Hx : spre (rx_b1 y ++ rx_species_text s y (E ++ k)) = rx_species_text s y (E ++ k))
+    by (unfold rx_species_text; apply spre_blanks_stop; [exact Hb1|apply idch_stop; exact Hr0]).
+  (* Group [Opt [infobox]] : absent *)
+  eapply seqs_cons.
+  { eapply evals_eq.
+    - eapply evals_node_ok; [exact Hg1|apply (pre_premise G full pil_c WS pil_comment_ok); repeat split|].
+      unfold pre_pos. cbn [andb ncallpre]. rewrite Hx.
+      eapply impls_wrap; [reflexivity|reflexivity|].
+      eapply evals_node_ok; [exact Ho1|cbn; reflexivity|].
+      eapply impls_opt_none; [reflexivity|reflexivity|].
+      eapply evals_node_fail; [lk|cbn; reflexivity|].
+      eapply impls_and_fail; [reflexivity|reflexivity|].
+      eapply evals_eq; [apply (evals_slit G full pil_c WS pil_comment_ok 122 123 false true true); lk|].
+      cbn [andb]. unfold lit_res, rx_species_text. cbn [starts_with].
+      destruct (N.eqb_spec 91 (rx_r0 s)) as [e|]; [rewrite <- e in Hr0; discriminate|reflexivity].
+    - reflexivity. }
+  apply (seqs_rx_species full g2 sa la g3 m sl le s y E k _ [TList []]); try assumption.
+  unfold rx_species_text. apply spre_stop. apply idch_stop. exact Hr0.
 Qed.
 
 Theorem roundtrip_reaction s y :
